@@ -156,7 +156,11 @@ func generateInjectors(g *gen, pkg *packages.Package) (injectorFiles []*ast.File
 	// the output must not depend on how the package was named.
 	files := append([]*ast.File(nil), pkg.Syntax...)
 	sort.SliceStable(files, func(i, j int) bool {
-		return sourceFileName(pkg.Fset, files[i]) < sourceFileName(pkg.Fset, files[j])
+		ni, nj := sourceFileName(pkg, files[i]), sourceFileName(pkg, files[j])
+		if bi, bj := filepath.Base(ni), filepath.Base(nj); bi != bj {
+			return bi < bj
+		}
+		return ni < nj
 	})
 	for _, f := range files {
 		for _, decl := range f.Decls {
@@ -175,7 +179,7 @@ func generateInjectors(g *gen, pkg *packages.Package) (injectorFiles []*ast.File
 			if len(injectorFiles) == 0 || injectorFiles[len(injectorFiles)-1] != f {
 				// This is the first injector generated for this file.
 				// Write a file header.
-				name := filepath.Base(sourceFileName(g.pkg.Fset, f))
+				name := filepath.Base(sourceFileName(g.pkg, f))
 				g.p("// Injectors from %s:\n\n", name)
 				injectorFiles = append(injectorFiles, f)
 			}
@@ -217,20 +221,28 @@ func generateInjectors(g *gen, pkg *packages.Package) (injectorFiles []*ast.File
 	return injectorFiles, nil
 }
 
-// sourceFileName returns the name of the file the user wrote f in. For a
-// file that imports "C" the loader parses cgo's translated copy, which lives
-// in the build cache under a name derived from the absolute source directory;
-// its //line directives point back to the original, and token.Position
-// honors them while token.File.Name does not.
-func sourceFileName(fset *token.FileSet, f *ast.File) string {
-	return fset.Position(f.Package).Filename
+// sourceFileName returns the name of the file the user wrote f in: the
+// physical file, if it is one of the package's Go files. Otherwise f was
+// parsed from a copy - for a file that imports "C" the loader parses cgo's
+// translation, which lives in the build cache under a name derived from the
+// absolute source directory - and the copy's //line directives name the
+// original. //line directives the user wrote must not matter: they may carry
+// absolute or repeated names.
+func sourceFileName(pkg *packages.Package, f *ast.File) string {
+	physical := pkg.Fset.PositionFor(f.Package, false).Filename
+	for _, name := range pkg.GoFiles {
+		if name == physical {
+			return physical
+		}
+	}
+	return pkg.Fset.PositionFor(f.Package, true).Filename
 }
 
 // copyNonInjectorDecls copies any non-injector declarations from the
 // given files into the generated output.
 func copyNonInjectorDecls(g *gen, files []*ast.File, info *types.Info) {
 	for _, f := range files {
-		name := filepath.Base(sourceFileName(g.pkg.Fset, f))
+		name := filepath.Base(sourceFileName(g.pkg, f))
 		first := true
 		for _, decl := range f.Decls {
 			switch decl := decl.(type) {
